@@ -1,6 +1,6 @@
 (* C34 -- timers (util/timers.go): executable model.  No proofs here.
 
-   Time is a logical clock in nanoseconds (N).  A timer object (*SimpleTimer) is a "generation"
+   Time is a logical clock in nanoseconds (N).  A timer object (a pointer to SimpleTimer) is a "generation"
    g = 0,1,2,... in creation order (object identity); ids (TimerID) are numbers.
    The code is cut into atomic steps at the granularity the code itself enforces:
 
@@ -158,7 +158,7 @@ Definition step_gen (by_ident : bool) (s : state) (st : step) : state * list eve
   end.
 
 (* the code after the fix *)
-Definition step := step_gen true.
+Definition step_fixed := step_gen true.
 
 (* trace is kept newest-first *)
 Fixpoint run_gen (b : bool) (s : state) (tr : list event) (l : list step) : state * list event :=
